@@ -200,7 +200,7 @@ Proof.
   intros Hs Hp. unfold parse_float_literal in Hp. rewrite Hs in Hp.
   destruct (sig_digits (ip ++ fp)) as [ds tz] eqn:Hsig. pose proof (sig_digits_value _ _ _ Hsig) as Hval.
   destruct ds as [|d ds'].
-  - left. split; [rewrite Hval; reflexivity|congruence].
+  - left. split; [rewrite Hval; reflexivity|]. destruct neg; [discriminate Hp|congruence].
   - right. exists (dec_value (d :: ds')), (Z.of_nat tz). split; [lia|]. split; [exact Hval|].
     cbv zeta in Hp |- *. destruct (Z.leb 310 _); [discriminate|]. destruct (_ || _); [discriminate|].
     unfold mk_float in Hp.
